@@ -162,19 +162,22 @@ def run(ctx):
             # data function of the non-accepted module
             import sys
             ext = sys.modules[extname]
-            del EXEC_LOG[:]
-            try:
-                r = ext.dq()
-                out = ("returned", r)
-            except DDSException as e:
-                out = ("dds_error", str(e))
-                ws.reset_dds_state()
-            except BaseException as e:
-                out = ("exc", type(e).__name__ + ": " + str(e)[:100])
-                ws.reset_dds_state()
-            if out[0] != "dds_error" or extname not in out[1] or EXEC_LOG:
-                res.violations.append({"what": "a data function of a non-accepted module is not refused with a DDS error naming the module: %s (executed: %s)" % (out[:1] + (out[1][:120],), bool(EXEC_LOG)),
-                                       "input": case, "kf": None})
+            # (asked three times in the same process: a refusal must not wear off)
+            for attempt in (1, 2, 3):
+                del EXEC_LOG[:]
+                try:
+                    r = ext.dq()
+                    out = ("returned", r)
+                except DDSException as e:
+                    out = ("dds_error", str(e))
+                    ws.reset_dds_state()
+                except BaseException as e:
+                    out = ("exc", type(e).__name__ + ": " + str(e)[:100])
+                    ws.reset_dds_state()
+                if out[0] != "dds_error" or extname not in out[1] or EXEC_LOG:
+                    res.violations.append({"what": "a data function of a non-accepted module is not refused with a DDS error naming the module (call number %d in the process): %s (executed: %s)" % (
+                        attempt, out[:1] + (out[1][:120],), bool(EXEC_LOG)), "input": case, "kf": None})
+                    break
             res.count("e2e_" + form)
         res.sample(case)
     for p in list(_accepted_packages):
